@@ -87,6 +87,20 @@ class AbsHeap:
         self.lines.append("new %d %s %s%s" % (o, kind, mode, " %d" % pointee if kind == "Box" else ""))
         return True
 
+    def adopt(self, k, j, mode, slot):
+        """a Ref built outside the collector, pointing at j, then registered: j is referred to by the holder only afterwards"""
+        if k in self.kind or not self.running or not self.usable(j) or self.mode[j] != "std" or j in self.boxof:
+            return False
+        self.kind[k], self.mode[k] = "Ref", mode
+        self.edges[k] = {0: j}
+        self.alive.add(k)
+        for s_ in [s_ for s_, v in self.stk.items() if v == j]:
+            self.stk[s_] = 0
+        self.stk[slot] = k
+        self.lines.append("adopt %d %d %s %d" % (k, j, mode, slot))
+        self.collection_point()               # the registration call may run a threshold collection - with the holder counted in
+        return True
+
     def collection_point_pre_new(self):
         if self.running:
             self.collection_point()           # an allocation may trigger a threshold collection
@@ -278,6 +292,11 @@ def random_program(rng, nobj=30, nops=150, arena=None, kinds=None, p_collect=0.1
                 if not h.new(nxt, k, md):
                     if h.lines[-1].startswith("at "):
                         h.lines.pop()
+                    continue
+            if rng.random() < 0.12 and nxt + 1 <= nobj and h.kind[nxt] != "Box" and h.mode[nxt] == "std" and h.usable(nxt):
+                # hand it to a holder that is built outside the collector and registered afterwards
+                if h.adopt(nxt + 1, nxt, rng.choice(["std", "root"]), rng.randrange(2, 12)):
+                    nxt += 2
                     continue
             # keep it (stack slot / another object / tls) or let it become garbage
             rr = rng.random()
